@@ -129,7 +129,8 @@ def engine_project(trace):
             if ev == "Reset":
                 cur = None
                 if "reuseport" in d:
-                    cur = {"cfg": d["cfg"], "loops": d["loops"], "reuseport": d["reuseport"], "ticker": d["ticker"], "events": [], "seq0": d["seq"]}
+                    cur = {"cfg": d["cfg"], "loops": d["loops"], "reuseport": d["reuseport"], "ticker": d["ticker"], "events": [], "seq0": d["seq"],
+                           "client": bool(d.get("client"))}
                     lives.append(cur)
                 continue
             if cur is None:
@@ -143,7 +144,9 @@ def engine_project(trace):
             elif ev == "Gate" and site == "eng.triggered":
                 e = {"ev": "Triggered", "idx": d["idx"]}
             elif ev == "Hook" and site == "el.registered":
-                e = {"ev": "Registered", "h": d["h"], "idx": d["b"]}
+                e = {"ev": "Registered", "h": d["h"], "idx": d["b"], "k": d["a"]}
+            elif ev == "Sys" and site == "cli.dup" and d["err"] == "nil" and cur["client"]:
+                e = {"ev": "Dup", "idx": d["fd"]}
             elif ev == "Hook" and site == "loop.closed":
                 e = {"ev": "LoopClosed", "idx": d["a"]}
             elif ev == "Hook" and site == "eng.stop":
@@ -161,7 +164,7 @@ def engine_project(trace):
                 e = {"ev": "Close", "h": d["h"], "action": "none" if a == "close" else a}
             elif ev == "CloseUnknown":
                 e = {"ev": "Close", "h": d["h"], "action": "none"}
-            elif ev == "StopReq" and d.get("src") in ("Stop", "Engine.Stop"):
+            elif ev == "StopReq" and d.get("src") in ("Stop", "Engine.Stop", "Client.Stop"):
                 e = {"ev": "StopReq"}
             elif ev == "OnShutdown":
                 e = {"ev": "OnShutdown"}
@@ -176,6 +179,19 @@ def engine_project(trace):
                     e.setdefault(k, v)
                 e["seq"] = d["seq"]
                 cur["events"].append(e)
+    # a duplicated socket's loop is only logged when its registration runs: attach it to the Dup event (joined by the
+    # descriptor number, which stays open in between) so that TLC need not branch over the loops
+    for lv in lives:
+        evs = lv["events"]
+        for i, e in enumerate(evs):
+            if e["ev"] == "Dup":
+                e["k"] = -1
+                for f in evs[i + 1:]:
+                    if f["ev"] == "Registered" and f["k"] == e["idx"]:
+                        e["k"] = f["idx"]
+                        break
+                    if f["ev"] == "Dup" and f["idx"] == e["idx"]:
+                        break
     return lives
 
 
@@ -194,13 +210,17 @@ def engine_traces(ctx, trace, what):
             for e in lv["events"]:
                 f.write(json.dumps(e) + "\n")
         nconn = sum(1 for e in lv["events"] if e["ev"] == ("OpenEnd" if lv["reuseport"] else "Accept"))
+        nreg = 0
+        if lv["client"]:
+            nconn, nreg = 0, max(1, sum(1 for e in lv["events"] if e["ev"] == "Dup"))
         cfg = os.path.join(ctx.scratch, "EngineTrace_%s_%d.cfg" % (what.replace(" ", "_").replace("/", "_")[:30], k))
         with open(cfg, "w") as f:
-            f.write("INIT TInit\nNEXT TNext\nCONSTANTS NLoops = %d MaxConns = %d MaxRegs = 0 ReusePort = %s Ticker = %s\n"
+            f.write("INIT TInit\nNEXT TNext\nCONSTANTS NLoops = %d MaxConns = %d MaxRegs = %d ReusePort = %s Ticker = %s ClientMode = %s\n"
                     "  Sources = {\"stop\", \"open\", \"traffic\", \"close\", \"tick\", \"boot\"}\n"
                     "INVARIANTS OnShutdownOnce AllOpenedClosedBeforeReturn NothingRunsAfterReturn InShutdownMeansDone QueuedIsInQueue\n"
                     "POSTCONDITION Accepted\nCHECK_DEADLOCK FALSE\n"
-                    % (lv["loops"], max(nconn, 1), "TRUE" if lv["reuseport"] else "FALSE", "TRUE" if lv["ticker"] else "FALSE"))
+                    % (lv["loops"], nconn if lv["client"] else max(nconn, 1), nreg, "TRUE" if lv["reuseport"] else "FALSE", "TRUE" if lv["ticker"] else "FALSE",
+                       "TRUE" if lv["client"] else "FALSE"))
         jobs.append((k, lv, tf, cfg))
 
     def one(job):
